@@ -422,11 +422,11 @@ class CooperativeAwarenessMessage:
             ] = self.create_position_confidence(tpv["epx"], tpv["epy"])
         if "altHAE" in tpv.keys():
             alt = int(tpv["altHAE"] * 100)
-            if alt < -800000:
+            if alt < -100000:
                 self.cam["cam"]["camParameters"]["basicContainer"]["referencePosition"][
                     "altitude"
                 ]["altitudeValue"] = -100000
-            elif alt > 613000:
+            elif alt > 800000:
                 self.cam["cam"]["camParameters"]["basicContainer"]["referencePosition"][
                     "altitude"
                 ]["altitudeValue"] = 800000
@@ -495,15 +495,19 @@ class CooperativeAwarenessMessage:
         dict
             Position confidence ellipse value.
         """
+        def semi_axis_length(metres: float) -> int:
+            # SemiAxisLength: 1 cm units, 4094 = outOfRange (more than 40,93 m), 4095 = unavailable
+            return min(int(metres * 100), 4094)
+
         position_confidence_ellipse = {
-            "semiMajorAxisLength": int(epx * 100),
-            "semiMinorAxisLength": int(epy * 100),
+            "semiMajorAxisLength": semi_axis_length(epx),
+            "semiMinorAxisLength": semi_axis_length(epy),
             "semiMajorAxisOrientation": 0,
         }
         if epy >= epx:
             position_confidence_ellipse = {
-                "semiMajorAxisLength": int(epy * 100),
-                "semiMinorAxisLength": int(epx * 100),
+                "semiMajorAxisLength": semi_axis_length(epy),
+                "semiMinorAxisLength": semi_axis_length(epx),
                 "semiMajorAxisOrientation": 0,
             }
         return position_confidence_ellipse
@@ -606,9 +610,10 @@ class CooperativeAwarenessMessage:
         int
             Heading confidence value.
         """
+        # HeadingConfidence: 0,1 degree units, 1..125; 126 = outOfRange; 127 = unavailable
         heading_confidence = 126
         if epd <= 12.5:
-            heading_confidence = int(epd * 10)
+            heading_confidence = max(1, int(epd * 10))
         return heading_confidence
 
     def __str__(self) -> str:
